@@ -96,6 +96,18 @@ func TestVerifWireRegproc(t *testing.T) {
 				published += snd.N - before
 				return "accepted", ""
 			})
+			if res.Outcome != "hang" && res.Outcome != "panic" {
+				// whatever the call answered, it must have let go of the selector lock: a read lock left behind blocks the next
+				// reload for ever and, behind the waiting writer, every later registration
+				if p.selectorMutex.TryLock() {
+					p.selectorMutex.Unlock()
+				} else {
+					res = vwResult{Outcome: "hang", Detail: "the call returned (" + res.Outcome + ") but still holds the phantom-selector lock: the next reload and every registration after it block",
+						Site: "regprocessor.selectorMutex"}
+					// a fresh processor for the rows that follow
+					delete(procs, f["auth"]+"/"+f["ovr"]+"/"+f["enforce"])
+				}
+			}
 			r.record(row, variant, res)
 		}
 		deliver("", raw)
